@@ -185,7 +185,9 @@ def add_aliases(rng, cfg):
 def run_impl(exe, scratch, idx, cfg, ops):
     path = os.path.join(scratch, "cli%d.conf" % idx)
     open(path, "w").write(cfg.text())
-    return vlib.sh(["timeout", "-s", "KILL", "60", exe, path], shell=False, inp=("\n".join(ops) + "\n").encode(), timeout=70,
+    # generous: one accepted 128 KiB request naming ~65000 unknown nodes costs ~17 s of CPU under ASan (_xhostlist_ranged_string
+    # re-renders the whole list once per 80 bytes of reply), more when 16 cases run side by side; an endless loop still hits the limit
+    return vlib.sh(["timeout", "-s", "KILL", "400", exe, path], shell=False, inp=("\n".join(ops) + "\n").encode(), timeout=420,
                    env={"ASAN_OPTIONS": "detect_leaks=0"})
 
 
@@ -490,7 +492,7 @@ def correspond(ctx, V, n):
                                        vlib.sh(["timeout", "-s", "KILL", "30", enq, os.path.join(ctx.scratch, "cli%d.conf" % ic[0])], shell=False, inp=b"", timeout=40, env={"ASAN_OPTIONS": "detect_leaks=0"})),
                            enumerate(cases)))
         minputs = ["\n".join(defs_for_model(cfg, o, eo, version) + ops + proto_ops(o)) + "\n" for (cfg, ops), ((rc, o, e), (rc2, eo, e2)) in zip(cases, outs)]
-        mouts = list(ex.map(lambda s: vlib.sh(["timeout", "-s", "KILL", "60", model], shell=False, inp=s.encode(), timeout=70), minputs))
+        mouts = list(ex.map(lambda s: vlib.sh(["timeout", "-s", "KILL", "400", model], shell=False, inp=s.encode(), timeout=420), minputs))
     for (cfg, ops), ((rc, o, e), _), (mrc, mo, me) in zip(cases, outs, mouts):
         il = [l for l in o.splitlines() if not l.startswith("NODES ")]
         ml = [l for l in mo.splitlines() if not l.startswith("PROTO ")]
@@ -505,6 +507,9 @@ def correspond(ctx, V, n):
                 streams[k] = streams.get(k, b"") + bytes.fromhex(hx)
                 for ln in bytes.fromhex(hx).split(b"\r\n"):
                     if ln[:3].isdigit(): V.count("code:" + ln[:3].decode())
+        if rc in (-9, 137, 124):
+            V.violation("wedge", "client-layer-timeout", dict(config=cfg.text(), ops=[x[:300] for x in ops]), "the client layer did not finish this session within 400 s of wall time")
+            continue
         if rc != 0:
             V.violation("daemon-dies", "client-layer rc=%d" % rc, dict(config=cfg.text(), ops=ops, stderr=e[-800:]), "client input / completion history kills the client layer")
             continue
